@@ -29,7 +29,7 @@ pub struct Case {
     pub cancel_after: Option<usize>,
 }
 
-pub const MAKE: [&str; 12] = ["make:client-credprops", "make:client-credprops-prf", "make:plain", "make:exclude-hit", "make:exclude-miss", "make:non-rk", "make:prf", "make:counter", "make:prf-uv-only-unverified", "make:bad-alg", "make:pin-auth", "make:uv-unconfigured"];
+pub const MAKE: [&str; 14] = ["make:same-user", "make:same-user-non-rk", "make:client-credprops", "make:client-credprops-prf", "make:plain", "make:exclude-hit", "make:exclude-miss", "make:non-rk", "make:prf", "make:counter", "make:prf-uv-only-unverified", "make:bad-alg", "make:pin-auth", "make:uv-unconfigured"];
 pub const GET: [&str; 17] = ["get:prf-cross-config", "get:prf-cross-config-counterless", "get:two-listed-first-fails-late", "get:two-listed-first-fails-late-reversed", "get:counter-max", "get:counter-max-prf-no-secret", "get:client-prf", "get:allow", "get:no-list", "get:prf", "get:counterless", "get:prf-no-secret", "get:prf-uv-only-unverified", "get:pin-auth", "get:two-listed", "get:silent", "get:silent-prf"];
 /// status bytes a faulting store answers with: success-looking, CTAP1, store-full, no-credentials,
 /// "other", vendor – and every status the library raises itself (a caller that reacts to a status
@@ -150,7 +150,9 @@ where
             _ => None,
         };
         let ext = (request == "make:prf" || uv_only).then(|| make_credential::ExtensionInputs { hmac_secret: Some(true), hmac_secret_mc: None, prf: Some(prf()) });
-        let mut req = mc_request(RP, &[7, 7], exclude, request != "make:non-rk", true, ask_uv, request == "make:pin-auth", ext);
+        // make:same-user*: the account (user handle 01) already has a credential at this RP
+        let uid: &[u8] = if request.starts_with("make:same-user") { &[1] } else { &[7, 7] };
+        let mut req = mc_request(RP, uid, exclude, request != "make:non-rk" && request != "make:same-user-non-rk", true, ask_uv, request == "make:pin-auth", ext);
         if request == "make:bad-alg" {
             req.pub_key_cred_params = vec![param(coset::iana::Algorithm::RS256)];
         }
@@ -530,7 +532,7 @@ pub fn run(ctx: &Ctx) -> Result<Run, String> {
     }
     let mut run = Run::from_stats(
         "fault_enumeration",
-        "requests {make through the client with credProps (and prf), make through the client with every attestation preference (4) x attestationFormats shape (absent, empty, [packed], [none], [packed, none], [tpm, apple]), get through the client with prf; make: plain, exclude-list hit, exclude-list miss, non-rk, PRF, counter, PRF evaluation that fails late (verification-gated secrets, unverified ceremony), unsupported algorithm, pin-auth, verification unconfigured; get: allow list, no list, PRF, counter-less, PRF on a credential without secret, PRF without verification on a credential that carries only the gated secret under a configuration with the non-gated one (with and without counter), PRF that fails late, stored counter at 2^32-1 (with and without a late failure), pin-auth, two listed credentials, two listed credentials with counters of which the first fails after its counter write (both list orders), silent (up = uv = false, nothing reported) with and without PRF} x store stack {contract store, behind Arc<Mutex>, behind Arc<RwLock>} x fault plans over the faultable store calls (every single call x 6 status codes, every subset of >= 2 calls with KeyStoreFull; thorough: subsets x 6 codes and single faults x all 256 bytes) x cancellation after every k < polls-to-completion (every store call and the user step suspend once); plus U2F registrations with a fresh key handle and with a key handle that is already the id of another relying party's credential, on Arc<Mutex<MemoryStore>> (an error leaves the store as it was; success leaves exactly one record under that id, bound to the application); plus cancellation-only runs on Arc<Mutex<MemoryStore>> and on an occupied Arc<RwLock<Option<Passkey>>> (assertions, and registrations - plain, with counter, with PRF, through the client - after which the slot holds the new credential and nothing else). Oracle: store snapshot before/after against a model that applies only the calls that returned Ok, call log, result. Every (request, store, plan, cancellation point) is a distinct case",
+        "requests {make for a user handle that already has a credential at the RP (discoverable and not), make through the client with credProps (and prf), make through the client with every attestation preference (4) x attestationFormats shape (absent, empty, [packed], [none], [packed, none], [tpm, apple]), get through the client with prf; make: plain, exclude-list hit, exclude-list miss, non-rk, PRF, counter, PRF evaluation that fails late (verification-gated secrets, unverified ceremony), unsupported algorithm, pin-auth, verification unconfigured; get: allow list, no list, PRF, counter-less, PRF on a credential without secret, PRF without verification on a credential that carries only the gated secret under a configuration with the non-gated one (with and without counter), PRF that fails late, stored counter at 2^32-1 (with and without a late failure), pin-auth, two listed credentials, two listed credentials with counters of which the first fails after its counter write (both list orders), silent (up = uv = false, nothing reported) with and without PRF} x store stack {contract store, behind Arc<Mutex>, behind Arc<RwLock>} x fault plans over the faultable store calls (every single call x 6 status codes, every subset of >= 2 calls with KeyStoreFull; thorough: subsets x 6 codes and single faults x all 256 bytes) x cancellation after every k < polls-to-completion (every store call and the user step suspend once); plus U2F registrations with a fresh key handle and with a key handle that is already the id of another relying party's credential, on Arc<Mutex<MemoryStore>> (an error leaves the store as it was; success leaves exactly one record under that id, bound to the application); plus cancellation-only runs on Arc<Mutex<MemoryStore>> and on an occupied Arc<RwLock<Option<Passkey>>> (assertions, and registrations - plain, with counter, with PRF, through the client - after which the slot holds the new credential and nothing else). Oracle: store snapshot before/after against a model that applies only the calls that returned Ok, call log, result. Every (request, store, plan, cancellation point) is a distinct case",
         true,
         stats,
     );
